@@ -105,6 +105,18 @@ ROWS = [
   "array pattern with two or more wildcard runs of different lengths", "C19 array_bin_count", "missed at first because attributed cases of the open finding filled the per-case report cap: caps are now per kind"),
  ("C19-m3", "C19", "/tmp/wt_C19", 3, "overlap collapse advances its index after a merge",
   "three patterns in one array whose ranges chain-overlap", "C19 array_bin_count", "missed at first: three-pattern arrays added"),
+ ("C12-m1", "C12", "/tmp/wt_C12", 1, "a cross notifies its covergroup on the first hit of a bin instead of when the bin reaches at_least (coverpoint_cross_model.sample)",
+  "cross with at_least > 1, a coverage query before the decisive sample, and a sample that completes a cross bin without completing a coverpoint bin", "C12 coverage_value", "missed at first twice: coverage queries became an operation of the search, and the state key is now taken before the oracle's own queries (query states had been merged with their parents)"),
+ ("C12-m2", "C12", "/tmp/wt_C12", 2, "CovergroupModel.equals overwrites the coverpoint verdict with the verdict on the last cross",
+  "parameterised covergroup with a cross, two parameter values whose shapes differ only in a coverpoint outside the cross", "C12 type_hits / type_partition", "missed at first: config x_other (shape parameter changes an uncrossed coverpoint) added"),
+ ("C12-m3", "C12", "/tmp/wt_C12", 3, "covergroup average adds the last coverpoint's weight for every cross (stale loop variable)",
+  "a cross whose weight differs from the last coverpoint's weight", "C12 coverage_value", "missed at first: config x_weight (cross weights 3 and 0) added"),
+ ("C13-m1", "C13", "/tmp/wt_C13", 1, "illegal-bin name lookup does not step the flat index (coverpoint_model._get_target_illegal_bin)",
+  "a coverpoint with three or more illegal bins", "C13 saved_db_differs / report_model_differs", "missed at first: config many_special (three illegal and three ignore bins) added"),
+ ("C13-m2", "C13", "/tmp/wt_C13", 2, "cross saved with the at_least of the last crossed coverpoint (coverage_save_visitor)",
+  "cross at_least different from its last coverpoint's and a cross bin with a count between the two", "C13 report_type_percentage", "missed at first: percentages of the report model are now compared with get_coverage()/get_inst_coverage(); config x_atleast"),
+ ("C13-m3", "C13", "/tmp/wt_C13", 3, "covergroup_types() returns and extends the registry's own first list",
+  "two covergroup classes and two report/save calls in one registry lifetime", "C13 report_altered_state", "missed at first: second covergroup class in every world; registry lists are part of the state key"),
 ]
 
 def main():
